@@ -93,8 +93,10 @@ func init() {
 			}
 			return p
 		},
-		Arm:        func(s *Sys) { s.Mon = append(s.Mon, &c03{s: s}) },
-		NonTrivial: func(s *Sys) bool { return s.K.Probes["c03-delete-hit"] > 0 || s.K.Probes["c03-recreated-under-deleted"] > 0 },
+		Arm: func(s *Sys) { s.Mon = append(s.Mon, &c03{s: s}) },
+		NonTrivial: func(s *Sys) bool {
+			return s.K.Probes["c03-delete-hit"] > 0 || s.K.Probes["c03-recreated-under-deleted"] > 0
+		},
 	}
 }
 
